@@ -27,7 +27,40 @@ func setOf(s string) *byteSet {
 func randBytesExcl(r *rand.Rand, n int, excl *byteSet) []byte {
 	const hot = "\"'@+>#;:,()_ *\\%\x00\x7f\x80\xc8\xff\v\f=-./|`~!$&[]{}<?^"
 	out := make([]byte, 0, n)
-	mode := r.IntN(4)
+	mode := r.IntN(5)
+	if mode == 4 && n >= 2 {
+		// Valid UTF-8 text with multi-byte runes, in particular the encodings of
+		// small code points (code that converts bytes through runes or ranges
+		// over strings confuses U+00xx with the byte xx) and of Unicode spaces.
+		specials := []rune{0xFF, 0x80, 0x85, 0xA0, 0xC8, 0x100, 0x141, 0x7FF, 0x800, 0x2028, 0x3000, 0xFEFF, 0xFFFD, 0x10000, 0x10FFFF}
+		for len(out) < n {
+			var cp rune
+			switch r.IntN(3) {
+			case 0:
+				cp = specials[r.IntN(len(specials))]
+			case 1:
+				cp = rune(0x80 + r.IntN(0x780))
+			default:
+				cp = rune(33 + r.IntN(94))
+			}
+			enc := []byte(string(cp))
+			bad := len(out)+len(enc) > n
+			for _, b := range enc {
+				if excl != nil && excl[b] {
+					bad = true
+				}
+			}
+			if bad {
+				b := byte(33 + r.IntN(94))
+				if excl == nil || !excl[b] {
+					out = append(out, b)
+				}
+				continue
+			}
+			out = append(out, enc...)
+		}
+		return out
+	}
 	for len(out) < n {
 		var b byte
 		switch {
